@@ -120,6 +120,18 @@ func (env *Env) evalTypeArg(e Expr) TV {
 			return TV{T: tn.Type(), IsType: true}
 		}
 	}
+	if sel, ok := e.(*ESel); ok {
+		// pkg.Type of an imported package
+		if id, ok := sel.X.(*EIdent); ok {
+			for _, imp := range env.ex.prog.Pkg.Types.Imports() {
+				if imp.Name() == id.Name {
+					if tn, ok := imp.Scope().Lookup(sel.F).(*types.TypeName); ok {
+						return TV{T: tn.Type(), IsType: true}
+					}
+				}
+			}
+		}
+	}
 	return env.eval(e)
 }
 
